@@ -16,7 +16,11 @@ stored, empties the batch and keeps the store well-formed - for every batch, wit
 """
 MODULE = "tel2puml/otel_to_pv/data_holders/sql_data_holder/sql_dataholder.py"
 
+KW_CTOR = ["NodeModel"]
 RECORDS = {
+    "OTelEvent": {"fields": {"job_name": "str", "job_id": "str", "event_type": "str", "event_id": "str", "start_timestamp": "int",
+                             "end_timestamp": "int", "application_name": "str", "parent_event_id": "Optional[str]",
+                             "child_event_ids": "Optional[list[str]]"}},
     "NodeModel": {"fields": {"job_name": "str", "job_id": "str", "event_type": "str", "event_id": "str", "start_timestamp": "int",
                              "end_timestamp": "int", "application_name": "str", "parent_event_id": "Optional[str]"}},
     "Session": {"fields": {}},
@@ -159,9 +163,50 @@ CONTRACTS = {
         # a flush never fails, whatever the batch contains
         "ensures": STORED("self", B0, N0, A0),
     },
+    "SQLDataHolder.convert_otel_event_to_node_model": {
+        "static": True,
+        "ensures": {
+            "copied": "result.job_name == otel_event.job_name and result.job_id == otel_event.job_id and result.event_type == otel_event.event_type "
+                      "and result.event_id == otel_event.event_id and result.start_timestamp == otel_event.start_timestamp "
+                      "and result.end_timestamp == otel_event.end_timestamp and result.application_name == otel_event.application_name",
+            # an empty parent id means "no parent"
+            "parent": "result.parent_event_id == (otel_event.parent_event_id if otel_event.parent_event_id is not None and otel_event.parent_event_id != '' else None)",
+        },
+    },
+    "SQLDataHolder.add_node_relations": {
+        "modifies": ["SQLDataHolder.node_relationships_to_save"],
+        "ensures": {
+            "appended": "self.node_relationships_to_save == old(self.node_relationships_to_save) + "
+                        "([{'parent_id': otel_event.parent_event_id, 'child_id': otel_event.event_id}] "
+                        "if otel_event.parent_event_id is not None and otel_event.parent_event_id != '' else [])",
+            "frame": "forall(lambda h: h is self or h.node_relationships_to_save == old(h.node_relationships_to_save), 'SQLDataHolder')",
+        },
+    },
+    "SQLDataHolder._save_data": {
+        "modifies": ALLM,
+        "requires": {"wf": WF("self"), "pending": BI("self")},
+        "ensures": {
+            # one more pending row (with its pending parent link), or - when the batch is full - a flush of the batch including it
+            "buffered_or_flushed":
+                "(len(old(self.node_models_to_save)) + 1 < self.batch_size and len(self.node_models_to_save) == len(old(self.node_models_to_save)) + 1 "
+                " and self.node_models_to_save[:-1] == old(self.node_models_to_save) and self.node_models_to_save[-1].event_id == otel_event.event_id "
+                " and self.g_nodes == old(self.g_nodes) and self.g_assoc == old(self.g_assoc)) "
+                "or (len(old(self.node_models_to_save)) + 1 >= self.batch_size and len(self.node_models_to_save) == 0 "
+                " and forall(lambda k: implies(k in old(self.g_nodes), k in self.g_nodes and self.g_nodes[k] is old(self.g_nodes)[k]), 'str') "
+                " and otel_event.event_id in self.g_nodes)",
+            "pending": BI("self"),
+            "wf": WF("self"),
+        },
+        "hints": ["(old(self.node_models_to_save) + [node_model])[len(old(self.node_models_to_save))].event_id == otel_event.event_id"],
+    },
 }
 
 ORDER = ["Session.rollback", "SQLDataHolder.batch_insert_node_models", "SQLDataHolder.batch_insert_node_associations",
          "SQLDataHolder.get_event_ids_existing_in_db", "SQLDataHolder._update_node_relations_from_node",
          "SQLDataHolder.commit_batched_data_to_database", "SQLDataHolder.check_and_filter_non_unique_nodes_and_associations",
-         "SQLDataHolder.commit_batched_unique_data_to_database"]
+         "SQLDataHolder.commit_batched_unique_data_to_database", "SQLDataHolder.convert_otel_event_to_node_model",
+         "SQLDataHolder.add_node_relations", "SQLDataHolder._save_data"]
+
+
+def setup(V):
+    V.kw_ctor_records = set(KW_CTOR)
